@@ -2,6 +2,7 @@ package verifsim
 
 import (
 	"fmt"
+	"os"
 	"path/filepath"
 	"sort"
 	"strconv"
@@ -57,6 +58,15 @@ func c14Ops(w *World, nWriters int) (tasks [][]Op) {
 				key := fmt.Sprintf("w%dk%d", wi, r.Intn(3))
 				ver[key]++
 				ops = append(ops, Op{K: "kvset", Key: key, Val: fmt.Sprintf("v%d", ver[key])})
+			case x < 8 && r.Intn(3) == 0:
+				// a batch: every item and its metadata is one acknowledged write (the batch path journals and
+				// applies in its own order, and takes the write gate on its own)
+				var items []Item
+				for k := 1 + r.Intn(pick(r, []int{3, 3, 12, 48})); k > 0; k-- {
+					vecs++
+					items = append(items, Item{ID: fmt.Sprintf("w%dv%d", wi, vecs), Vec: genVec(r, 3), Meta: map[string]any{"ver": float64(1)}})
+				}
+				ops = append(ops, Op{K: "addbatch", Idx: c14Index, Items: items})
 			case x < 8:
 				vecs++
 				ops = append(ops, Op{K: "add", Idx: c14Index, ID: fmt.Sprintf("w%dv%d", wi, vecs), Vec: genVec(r, 3), Meta: map[string]any{"ver": float64(1)}})
@@ -185,6 +195,29 @@ func runC14(w *World, tr *Trace) {
 				acks = append(acks, rec)
 				mu.Unlock()
 			}
+			return
+		}
+		if op.K == "addbatch" {
+			w.Probe("batch_insert")
+			inv := nextSeq()
+			mu.Lock()
+			for _, it := range op.Items {
+				issued["vec|"+it.ID], issued["meta|"+it.ID] = 1, 1
+			}
+			mu.Unlock()
+			err, _ := w.execOn(w.E, op)
+			ret := nextSeq()
+			mu.Lock()
+			for _, it := range op.Items {
+				for _, item := range []string{"vec|" + it.ID, "meta|" + it.ID} {
+					rec := &ackRec{item: item, ver: 1, invoke: inv, ret: ret, acked: err == nil}
+					if err != nil {
+						rec.errText = err.Error()
+					}
+					acks = append(acks, rec)
+				}
+			}
+			mu.Unlock()
 			return
 		}
 		item, ver := verOf(op)
@@ -331,6 +364,9 @@ func runC14(w *World, tr *Trace) {
 				}
 				if got < floor[it] {
 					kind := p[0] + "_lost_after_" + what
+					if d := os.Getenv("KDSIM_KEEPIMG"); d != "" {
+						copyTree(dir, d)
+					}
 					w.Fail("acknowledged_write_survives_"+what, kind, fmt.Sprintf("%s: item %s recovered at version %d, but version %d was acknowledged before the %s was invoked (highest issued %d); %s", what, it, got, floor[it], what, issued[it], describeDir(dir)), -1)
 					return
 				}
